@@ -16,6 +16,7 @@ package clusters
 import (
 	"context"
 	"net/http"
+	"time"
 
 	"k8s.io/client-go/rest"
 
@@ -112,6 +113,90 @@ func HarnessC15EndpointRemoval() {
 	for i := 0; i < 3; i++ {
 		ep, err := c.PickOne()
 		vassert(err == nil && ep == stay, "C15/removed-endpoint-still-picked-or-kept-one-not")
+	}
+	vreach("end")
+}
+
+// ---- probe-loop lifecycle ----
+
+type c15Probe struct {
+	e   *EndpointInfo
+	ctx context.Context
+}
+
+var ghostC15Probes []c15Probe
+
+// verifC15StartProbe stands for startGatewayHealthCheck (two goroutines driven by a ticker that end when ctx is done):
+// it records which context every probe loop of which endpoint is bound to.
+func verifC15StartProbe(e *EndpointInfo, interval time.Duration, ctx context.Context) {
+	ghostC15Probes = append(ghostC15Probes, c15Probe{e: e, ctx: ctx})
+}
+
+func c15LiveProbes(e *EndpointInfo) int {
+	n := 0
+	for _, p := range ghostC15Probes {
+		if p.e == e && p.ctx.Err() == nil {
+			n++
+		}
+	}
+	return n
+}
+
+// HarnessC15ProbeLifecycle: one endpoint goes through an arbitrary history of spec.servers states (served, served but
+// disabled, absent) while the cluster stays alive: after every sync exactly one probe loop of it is live while it is
+// served and enabled, none while it is disabled, and once it is removed from spec.servers no probe loop ever started
+// for it is still live (every context a loop was bound to is cancelled) -- while the other endpoint keeps exactly one.
+// verif:replace github.com/kubewharf/kubegateway/pkg/clusters.startGatewayHealthCheck => verifC15StartProbe
+// verif:bounds 2 endpoints; history of 3 (quick) / 5 (thorough) syncs, each putting endpoint a1 in one of {enabled, disabled, absent}; then a final sync without it
+func HarnessC15ProbeLifecycle() {
+	ghostC15Probes = nil
+	c := c15Cluster("a", "https://a1", "https://a2")
+	a2, _ := c.Endpoints.Load("https://a2")
+	cur, _ := c.Endpoints.Load("https://a1")
+	var all []*EndpointInfo // every incarnation of a1
+	all = append(all, cur)
+	vassert(c15LiveProbes(cur) == 1, "C15/served-endpoint-without-exactly-one-probe-loop")
+	steps := vbound(3, 5)
+	yes := true
+	for i := 0; i <= steps; i++ {
+		mode := 2 // the final sync removes it
+		if i < steps {
+			mode = nondetRange("mode", 0, 2, i)
+		}
+		servers := []proxyv1alpha1.UpstreamClusterServer{{Endpoint: "https://a2"}}
+		switch mode {
+		case 0:
+			servers = append(servers, proxyv1alpha1.UpstreamClusterServer{Endpoint: "https://a1"})
+		case 1:
+			servers = append(servers, proxyv1alpha1.UpstreamClusterServer{Endpoint: "https://a1", Disabled: &yes})
+		}
+		if err := c.syncEndpoints(servers); err != nil {
+			vfail("C15/sync-fails")
+			return
+		}
+		now, present := c.Endpoints.Load("https://a1")
+		vassert(present == (mode != 2), "C15/endpoint-map-differs-from-spec")
+		if present && now != cur {
+			all = append(all, now)
+		}
+		cur = now
+		for _, e := range all {
+			want := 0
+			if e == cur && mode == 0 {
+				want = 1
+			}
+			n := c15LiveProbes(e)
+			if want == 0 {
+				if e == cur {
+					vassert(n == 0, "C15/disabled-endpoint-still-probed")
+				} else {
+					vassert(n == 0, "C15/removed-endpoint-still-probed")
+				}
+			} else {
+				vassert(n == 1, "C15/served-endpoint-without-exactly-one-probe-loop")
+			}
+		}
+		vassert(c15LiveProbes(a2) == 1, "C15/untouched-endpoint-probe-loops-changed")
 	}
 	vreach("end")
 }
